@@ -241,12 +241,21 @@ def entry_locksets(fns, requires, lock_kw=None, rounds=4):
     mapped into the callee's parameter names.  Returns ({name: frozenset}, {name: [site descriptions]}, problems)"""
     lock_kw = lock_kw or {}
     entry = {n: frozenset() for n in fns}
+    TOP = None
+    for n in requires:
+        entry[n] = TOP  # optimistic start (greatest fixpoint): needed for self-recursive requires-lock functions
     sites = {n: [] for n in requires}
     problems = []
-    for _ in range(rounds):
+    for _ in range(rounds + 2):
         new = {n: None for n in requires}
         sites = {n: [] for n in requires}
         for cname, f in fns.items():
+            if entry.get(cname, frozenset()) is TOP:
+                # caller's own context not known yet: its sites cannot lower anything in this round
+                for e in f.all_events():
+                    if e.kind == "call" and e.node.get("callee") in requires:
+                        sites[e.node["callee"]].append("%s:%d" % (cname, e.line))
+                continue
             ts = lockset(f, init=entry.get(cname, frozenset()), **lock_kw)
             for e in f.all_events():
                 if e.kind != "call":
@@ -258,7 +267,6 @@ def entry_locksets(fns, requires, lock_kw=None, rounds=4):
                 if c in requires and c in fns:
                     callee = fns[c]
                     args = [argstr(f, e.node, i, addr=False) for i in range(len(e.node["a"]))]
-                    args_obj = [argstr(f, e.node, i, addr=True) for i in range(len(e.node["a"]))]
                     params = [p["n"] for p in callee.params]
                     mapped = set()
                     for L in held:
@@ -298,12 +306,20 @@ def entry_locksets(fns, requires, lock_kw=None, rounds=4):
                         sites[p["n"]].append("%s:%d(wait predicate)" % (cname, e.line))
         changed = False
         for n in requires:
-            v = frozenset(new[n] or ())
-            if v != entry.get(n):
-                entry[n] = v
-                changed = True
+            if new[n] is None:
+                continue  # no analysable site yet
+            v = frozenset(new[n])
+            if entry.get(n) is TOP or v != entry.get(n):
+                if entry.get(n) is not TOP:
+                    v = v & entry[n]
+                if v != entry.get(n):
+                    entry[n] = v
+                    changed = True
         if not changed:
             break
+    for n in requires:
+        if entry.get(n) is TOP:
+            entry[n] = frozenset()
     # a requires-lock function must not escape as a plain function value (other than as a wait predicate) and must have a site
     for n in requires:
         if n in fns and not sites.get(n):
